@@ -226,8 +226,14 @@ func directEdge(ifi *ssa.If, f fact) (int, bool) {
 	return 0, false
 }
 
-// boolIIFE: ifi branches on the result of an immediately-invoked bool literal.
+// boolIIFE: ifi branches on a bool result of an immediately-invoked literal (its only result, or
+// one component of a multi-result literal: `if m, ok := func(…) (T, bool) {…}(x); ok`).
 func boolIIFE(ifi *ssa.If) (g *ssa.Function, succWhenTrue int, ok bool) {
+	g, _, succWhenTrue, ok = boolIIFEIdx(ifi)
+	return
+}
+
+func boolIIFEIdx(ifi *ssa.If) (g *ssa.Function, idx int, succWhenTrue int, ok bool) {
 	v := ifi.Cond
 	neg := false
 	for {
@@ -238,28 +244,41 @@ func boolIIFE(ifi *ssa.If) (g *ssa.Function, succWhenTrue int, ok bool) {
 		}
 		break
 	}
+	if e, isE := v.(*ssa.Extract); isE {
+		idx = e.Index
+		v = e.Tuple
+	}
 	call, isCall := v.(*ssa.Call)
 	if !isCall {
-		return nil, 0, false
+		return nil, 0, 0, false
 	}
 	g = iifeCallee(call)
-	if g == nil || g.Signature.Results().Len() != 1 || g.Signature.Results().At(0).Type().String() != "bool" || len(loopsOf(g)) > 0 {
-		return nil, 0, false
+	if g == nil || g.Signature.Results().Len() <= idx || g.Signature.Results().At(idx).Type().String() != "bool" || len(loopsOf(g)) > 0 {
+		return nil, 0, 0, false
+	}
+	if _, isE := v.(*ssa.Call); isE && idx == 0 && g.Signature.Results().Len() != 1 {
+		if _, viaExtract := stripNot(ifi.Cond).(*ssa.Extract); !viaExtract {
+			return nil, 0, 0, false
+		}
 	}
 	if neg {
-		return g, 1, true
+		return g, idx, 1, true
 	}
-	return g, 0, true
+	return g, idx, 0, true
 }
 
 // iifeImplies: whenever the bool literal g returns `result`, the fact holds.
 func iifeImplies(g *ssa.Function, result bool, f fact) bool {
+	return iifeImpliesIdx(g, 0, result, f)
+}
+
+func iifeImpliesIdx(g *ssa.Function, idx int, result bool, f fact) bool {
 	paths, ok := abstractPaths(g, 512, func(ssa.Value) (bool, bool) { return false, false })
 	if !ok || len(paths) == 0 {
 		return false
 	}
 	for _, p := range paths {
-		r := p.St.resolve(p.Ret.Results[0])
+		r := p.St.resolve(p.Ret.Results[idx])
 		// can this path produce `result`?
 		neg := false
 		for {
@@ -333,8 +352,8 @@ func edgeEstablishes(ifi *ssa.If, e int, f fact) bool {
 	if s, ok := directEdge(ifi, f); ok && s == e {
 		return true
 	}
-	if g, succTrue, ok := boolIIFE(ifi); ok {
-		return iifeImplies(g, e == succTrue, f)
+	if g, idx, succTrue, ok := boolIIFEIdx(ifi); ok {
+		return iifeImpliesIdx(g, idx, e == succTrue, f)
 	}
 	return false
 }
@@ -375,4 +394,28 @@ func edgesWhereAll(fn *ssa.Function, facts ...fact) []cfgEdge {
 		}
 	}
 	return out
+}
+
+// pathEstablishes: one of the branch edges taken on this path establishes the fact.
+func pathEstablishes(st *pathState, f fact) bool {
+	for e := range st.Edges {
+		if len(e.From.Instrs) == 0 {
+			continue
+		}
+		ifi, isIf := e.From.Instrs[len(e.From.Instrs)-1].(*ssa.If)
+		if isIf && edgeEstablishes(ifi, e.Idx, f) {
+			return true
+		}
+	}
+	return false
+}
+
+func stripNot(v ssa.Value) ssa.Value {
+	for {
+		if u, isU := v.(*ssa.UnOp); isU && u.Op == token.NOT {
+			v = u.X
+			continue
+		}
+		return v
+	}
 }
